@@ -13,8 +13,14 @@ RULE = ("documents of definitions and nested scopes (depth <= 3) whose words mix
         "define the names x layouts (one object per line; statements sharing a physical line through ';', one-line scopes, "
         "objects right after a closing brace; brace on its own line; blank / comment lines); 'earlier' in the oracle is the "
         "position in the text as written by the generator, not primary_id; non-trivial = the definition contains a '$'; "
-        "distinct = (document, env)")
-ASSUMPTIONS = ["documents are variable-substituted through definition.resolve_variables (what fetch calls)"]
+        "distinct = (document, env); plus sources made of 2-3 files read with parse(file_name=, process_includes=True): "
+        "`include file` at the top level / inside a scope / in a file that is itself included / the same file twice, "
+        "$variables in every file; each definition is resolved through the including file and through "
+        "master.fetch(combined source), 'the same source' = the file the reference is written in (names without an "
+        "earlier definition in their own file are not judged); model = resolution of each file's own text")
+ASSUMPTIONS = ["documents are variable-substituted through definition.resolve_variables (what fetch calls)",
+               "across `include file` the unchanged tree keeps every file a lexical island (an included reference does not see "
+               "the includer's definitions and vice versa): recorded, neither demanded nor forbidden by the oracle"]
 NAMES = ["a", "b", "c", "s", "t", "x1", "s_b", "t_b", "ab", "sa", "st"]   # incl. names that extend scope names
 ENVN = ["a", "b", "c", "HOME_X", "zz", "x1", "s", "a.b", "s_b", "t_b", "ab", "st"]
 
@@ -102,7 +108,7 @@ def lay_out(rng, nodes, p, last_of_scope=False):
     for i, n in enumerate(nodes):
         if rng.random() < p * 0.25:
             n["pre"] = rng.choice(["\n", "# c = $a\n", "\n\n", "  # a = 1; b = $a\n"])
-        if n["k"] == "d":
+        if n["k"] in ("d", "i"):
             if rng.random() < p:
                 n["end"] = rng.choice(DEF_ENDS)
                 if last_of_scope and i == len(nodes) - 1 and rng.random() < 0.5:
@@ -127,8 +133,11 @@ def render(nodes, indent=""):
                 out.append(n["pre"])
             if bol():
                 out.append(ind)
-            bang = "!" if n["dis"] else ""
-            if n["k"] == "d":
+            bang = "!" if n.get("dis") else ""
+            if n["k"] == "i":
+                out.append("include file %s" % n["name"])
+                out.append(n.get("end", "\n"))
+            elif n["k"] == "d":
                 out.append("%s%s = %s" % (bang, n["name"], " ".join(n["words"])))
                 out.append(n.get("end", "\n"))
             else:
@@ -307,6 +316,7 @@ def run(ctx):
                 ctx.fail({"text": text, "env": env}, f)
         if i % 200 == 0:
             ctx.sample({"text": text, "env": env, "resolved": [o if o[0] != "ok" else [dec(w[0]) for w in o[1]] for o in impl][:6]})
+    include_stream(ctx)
 
 
 def same_line(ctx, defs, pos):
@@ -369,9 +379,15 @@ class _Refused(Exception):
     pass
 
 
-def reference_resolve(root, d, specs, spec_of, env, pos):
+class _NotJudged(Exception):
+    pass
+
+
+def reference_resolve(root, d, specs, spec_of, env, pos, defined_only=False):
     """the statement read directly, for documents whose words are generated from (quote, fragments) specifications:
-    every reference denotes the nearest earlier definition *seen from the definition that contains the reference*"""
+    every reference denotes the nearest earlier definition *seen from the definition that contains the reference*.
+    defined_only: a name without an earlier definition in this source is not judged (documents that are one file of
+    several: what such a name falls back to is not part of the statement)"""
     out = []
     for q, frags in specs:
         if q == "'" or all(k == "lit" for k, _ in frags):
@@ -383,6 +399,8 @@ def reference_resolve(root, d, specs, spec_of, env, pos):
                 vals.append([(v, None)])
                 continue
             t = ref_lookup(root, d, v, pos)
+            if t is None and defined_only:
+                raise _NotJudged()
             if t is None:
                 if v in env:
                     vals.append([(env[v], '"')])
@@ -390,7 +408,7 @@ def reference_resolve(root, d, specs, spec_of, env, pos):
                 raise _Refused("undefined")
             if t.is_scope:
                 raise _Refused("scope")
-            vals.append(reference_resolve(root, t, spec_of[id(t)], spec_of, env, pos))
+            vals.append(reference_resolve(root, t, spec_of[id(t)], spec_of, env, pos, defined_only))
         if q is None and len(frags) == 1:
             out.extend(vals[0])
         else:
@@ -402,11 +420,11 @@ def flat_nodes(nodes):
     for n in nodes:
         if n["k"] == "d":
             yield n
-        else:
+        elif n["k"] == "s":
             yield from flat_nodes(n["kids"])
 
 
-def dense_clause(root, nodes, defs, impl, env, pos):
+def dense_clause(root, nodes, defs, impl, env, pos, defined_only=False):
     """dense documents: every definition against the reference reading"""
     dn = list(flat_nodes(nodes))
     if len(dn) != len(defs):
@@ -415,7 +433,9 @@ def dense_clause(root, nodes, defs, impl, env, pos):
     from common import quote_tag
     for d, out in zip(defs, impl):
         try:
-            want = reference_resolve(root, d, spec_of[id(d)], spec_of, env, pos)
+            want = reference_resolve(root, d, spec_of[id(d)], spec_of, env, pos, defined_only)
+        except _NotJudged:
+            continue
         except _Refused as e:
             if out[0] != "err":
                 return ({"definition": d.full_path()}, "reference reading refuses (%s) but the result is %r" % (e, out))
@@ -428,7 +448,7 @@ def dense_clause(root, nodes, defs, impl, env, pos):
     return None
 
 
-def lookup_clause(root, d, out, env, diff, pos):
+def lookup_clause(root, d, out, env, diff, pos, defined_only=False):
     """a word that is exactly one unquoted variable takes over the words of the nearest earlier definition"""
     if len(d.words) != 1 or d.words[0].quote_token is not None or diff or pos is None:
         return None
@@ -442,6 +462,8 @@ def lookup_clause(root, d, out, env, diff, pos):
     if not freephil.is_standard_identifier(name[1:] if name.startswith(".") else name):
         return None
     target = ref_lookup(root, d, name, pos)
+    if target is None and defined_only:
+        return None
     if target is None:
         if name in env:
             want = ["ok", [[enc(env[name]), "d1", None]]]
@@ -551,10 +573,362 @@ def finding_still_fails(f):
         return got != [list(x) for x in w["required"]]
     return True
 
+# ---------------------------------------------------------------------------------------------------------------------
+# sources made of several files: parse(file_name=..., process_includes=True), then resolve_variables / fetch.
+# "the same source" of a reference is the FILE it is written in: a $name inside an included file denotes the nearest
+# earlier definition of that file, whatever the including file defines before the include statement, wherever the
+# include statement stands (top level, inside a scope, in a file that is itself included) and however often the file
+# is included.
+
+class _V:
+    """one parsed object as a member of its own source file: .objects holds the objects written in the same file only
+    (what an include statement inside a scope brought in belongs to the other file)"""
+    __slots__ = ("obj", "name", "is_scope", "is_definition", "objects", "path")
+
+    def __init__(self, obj, name, path):
+        self.obj = obj
+        self.name = name
+        self.is_scope = bool(obj is not None and obj.is_scope) or obj is None
+        self.is_definition = not self.is_scope
+        self.objects = []
+        self.path = path
+
+    @property
+    def words(self):
+        return self.obj.words
+
+    def full_path(self):
+        return self.path
+
+
+def gen_files(rng):
+    """a main file and one or two further files; every further file is reached through `include file` statements
+    written at the top level or inside a scope of the main file or of another included file (no cycles); a file may be
+    included more than once"""
+    nf = rng.choice([2, 2, 3])
+    files = []
+    for i in range(nf):
+        dense = rng.random() < 0.4
+        depth = rng.choice([0, 1, 1, 2])
+        nodes = gen_dense(rng, depth) if dense else gen_nodes(rng, depth)
+        files.append({"name": "main.phil" if i == 0 else "inc%d.phil" % i, "nodes": nodes, "dense": dense})
+
+    def put(i, j):
+        ns = files[i]["nodes"]
+        while True:
+            scopes = [n for n in ns if n["k"] == "s" and not n["dis"]]
+            if scopes and rng.random() < 0.35:
+                ns = rng.choice(scopes)["kids"]
+            else:
+                break
+        # anywhere, but more often late in the list: many definitions then precede the include statement
+        at = rng.choice([rng.randint(0, len(ns)), len(ns), len(ns)])
+        ns.insert(at, {"k": "i", "name": files[j]["name"], "file": j})
+    put(0, 1)
+    if nf == 3:
+        put(rng.choice([0, 1, 1]), 2)
+    if rng.random() < 0.25:
+        j = rng.randrange(1, nf)
+        put(rng.randrange(0, j), j)
+    return files
+
+
+def file_views(files, processed):
+    """parallel walk of the trees as written and the tree with the includes processed: for every inclusion instance of
+    every file the view of its objects (_V, own-file members only), its definitions in document order and the position
+    table (ordinal of each object within ITS file, the include statement counting as one object).  None if the
+    processed tree is not what was written."""
+    insts = []
+    pos = {}
+
+    def new_inst(fi):
+        inst = {"file": fi, "root": _V(None, "", ""), "defs": [], "k": 0}
+        insts.append(inst)
+        return inst
+
+    def walk(nodes, inst, pv, it, prefix):
+        for n in nodes:
+            inst["k"] += 1
+            if n["k"] == "i":
+                sub = new_inst(n["file"])
+                walk(files[n["file"]]["nodes"], sub, sub["root"], it, "")
+                continue
+            o = next(it, None)
+            if o is None:
+                raise _Mismatch()
+            k = inst["k"]
+            comps = n["name"].split(".")
+            at, path = pv, prefix
+            for c in comps[:-1]:
+                if not o.is_scope or o.name != c or len(o.objects) != 1:
+                    raise _Mismatch()
+                path = path + c + "."
+                v = _V(o, c, path[:-1])
+                pos[id(v)] = k
+                at.objects.append(v)
+                at, o = v, o.objects[0]
+            if o.name != comps[-1] or bool(o.is_scope) != (n["k"] == "s"):
+                raise _Mismatch()
+            v = _V(o, o.name, path + o.name)
+            pos[id(v)] = k
+            at.objects.append(v)
+            if n["k"] == "s":
+                it2 = iter(o.objects)
+                walk(n["kids"], inst, v, it2, path + o.name + ".")
+                if next(it2, None) is not None:
+                    raise _Mismatch()
+            else:
+                inst["defs"].append(v)
+    try:
+        top = iter(processed.objects)
+        main = new_inst(0)
+        walk(files[0]["nodes"], main, main["root"], top, "")
+        if next(top, None) is not None:
+            raise _Mismatch()
+    except _Mismatch:
+        return None, None
+    return insts, pos
+
+
+def master_for(paths):
+    """untyped master declaring every path (nested scopes written out); None if a path is both a parameter and a scope"""
+    tree = {}
+    for p in paths:
+        at = tree
+        comps = p.split(".")
+        for c in comps[:-1]:
+            at = at.setdefault(c, {})
+            if at is None:
+                return None
+        if isinstance(at.get(comps[-1], None), dict):
+            return None
+        at[comps[-1]] = None
+    out = []
+
+    def walk(t, ind):
+        for k, v in t.items():
+            if v is None:
+                out.append("%s%s = None\n" % (ind, k))
+            else:
+                out.append("%s%s {\n" % (ind, k))
+                walk(v, ind + "  ")
+                out.append("%s}\n" % ind)
+
+    def clash(t):
+        return any(v is not None and (not v or clash(v)) for v in t.values())
+    if clash(tree):
+        return None
+    walk(tree, "")
+    return "".join(out)
+
+
+def include_round(ctx, rng, base, serial, pending):
+    files = gen_files(rng)
+    p = rng.choice([0, 0, 0.15, 0.5])
+    for f in files:
+        if p:
+            lay_out(rng, f["nodes"], p)
+        f["text"] = render(f["nodes"])
+    d = os.path.join(base, "%d" % (serial % 50))
+    os.makedirs(d, exist_ok=True)
+    for f in files:
+        with open(os.path.join(d, f["name"]), "w") as fh:
+            fh.write(f["text"])
+    env = {k: rng.choice(["E" + k, "v w", ""]) for k in ENVN if rng.random() < 0.4}
+    diff = rng.random() < 0.15
+    texts = {f["name"]: f["text"] for f in files}
+    case = {"files": texts, "main": files[0]["name"], "env": env, "diff": diff}
+    ctx.case((tuple(sorted(texts.items())), tuple(sorted(env.items())), diff), nontrivial=any("$" in t for t in texts.values()))
+    ctx.count("include_documents")
+    with env_as(env):        # `include file` resolves its own words; nothing here depends on the environment
+        processed = call_j(lambda: freephil.parse(file_name=os.path.join(d, files[0]["name"]), process_includes=True))
+    if processed[0] != "ok":
+        ctx.count("include_document_refused_" + str(processed[2] if len(processed) > 2 else processed[1]))
+        return
+    processed = processed[1]
+    insts, pos = file_views(files, processed)
+    if insts is None:
+        ctx.count("include_processed_tree_differs_from_written_trees")   # not judged here (C13's subject)
+        return
+    ctx.count("include_instances", len(insts) - 1)
+    # ---- each file on its own (no includes processed): the model's and the metamorphic reference's view of "the same source"
+    alone, model = {}, {}
+    for fi, f in enumerate(files):
+        r = freephil.parse(file_name=os.path.join(d, f["name"]))
+        ds = all_defs(r)
+        keep = [j for j, x in enumerate(ds) if x.name != "include"]
+        with env_as(env):
+            a_env = [resolve_j(ds[j], diff) for j in keep]
+        with env_as({}):
+            a_none = [resolve_j(ds[j], diff) for j in keep]
+            settled = [o[0] == "ok" for o in a_none] if not diff else [resolve_j(ds[j])[0] == "ok" for j in keep]
+        alone[fi] = (a_env, a_none, settled)
+        model[fi] = {"request": ["resolve", enc(f["text"]), [[enc(k), enc(v)] for k, v in env.items()], diff],
+                     "case": dict(case, file=f["name"]), "n": len(ds), "keep": keep, "alone": a_env, "through": []}
+        pending.append(model[fi])
+    # ---- every definition of every inclusion instance, reached through the including file
+    outs_of = {}
+    for inst in insts:
+        f = files[inst["file"]]
+        with env_as(env):
+            outs = [resolve_j(v.obj, diff) for v in inst["defs"]]
+        for v, o in zip(inst["defs"], outs):
+            outs_of[id(v.obj)] = o
+        included = inst is not insts[0]
+        tag = "included" if included else "including"
+        for o in outs:
+            ctx.count("outcome_%s_%s" % (tag, o[0] if o[0] == "ok" else o[2]))
+        where = dict(case, file=f["name"])
+        model[inst["file"]]["through"].append(([v.full_path() for v in inst["defs"]], outs))
+        a_env, a_none, settled = alone[inst["file"]]
+        if len(a_env) != len(outs):
+            ctx.count("include_definition_count_differs")
+            continue
+        for v, o, ae, an, st in zip(inst["defs"], outs, a_env, a_none, settled):
+            w = dict(where, definition=v.full_path())
+            # the statement, read on the file's own text (names without an earlier definition in the file: not judged)
+            fl = clauses(v, o, diff)
+            if fl:
+                # finding D70 ('''-quoted words are substituted): same narrow class as in the single-document stream
+                cls = ["D70"] if d70_class(v) and not clauses(v, o, diff, single=("'",)) else None
+                ctx.fail(w, "[%s file] %s" % (tag, fl), finding=cls)
+                continue
+            fl = lookup_clause(inst["root"], v, o, env, diff, pos, defined_only=True)
+            if fl:
+                ctx.fail(w, "[%s file] %s" % (tag, fl))
+                continue
+            # every reference is settled by earlier definitions of the file itself (it resolves there with no environment
+            # at all): neither the including file nor the environment may then influence the result
+            if st:
+                ctx.count("include_definitions_settled_inside_their_file" if included else "including_definitions_settled")
+                if "$" in "".join(x.value for x in v.words):
+                    ctx.count("include_nontrivial_settled" if included else "including_nontrivial_settled")
+                if o != an or ae != an:
+                    ctx.fail(w, "[%s file] %s resolves to %r inside %s on its own (no environment), but to %r when the file "
+                                "is read through %s: definitions outside its own source influence the result"
+                                % (tag, v.full_path(), an, f["name"], o, files[0]["name"]))
+        if f["dense"] and not diff:
+            fl = dense_clause(inst["root"], f["nodes"], inst["defs"], outs, env, pos, defined_only=True)
+            if fl:
+                ctx.fail(dict(where, **fl[0]), "[%s file] %s" % (tag, fl[1]))
+    # ---- the same through fetch: an untyped master declaring every path; the value fetched for a path is the
+    #      resolution of the last active definition of that path in the combined source
+    if diff:
+        return
+    matches, scope_paths = {}, set()
+
+    def walk(sc, prefix):
+        for x in sc.objects:
+            if x.is_disabled:
+                continue
+            if x.is_scope:
+                scope_paths.add(prefix + x.name)
+                walk(x, prefix + x.name + ".")
+            else:
+                matches.setdefault(prefix + x.name, []).append(x)
+    walk(processed, "")
+    # 3 in 10: every path declared (one unresolvable matching definition then refuses the whole fetch); else only the
+    # paths whose definitions all resolve, so that the fetch has a result to be judged
+    declare_all = rng.random() < 0.3
+
+    def usable(pth):
+        comps = pth.split(".")
+        if pth in scope_paths or any(".".join(comps[:k]) in matches for k in range(1, len(comps))):
+            return False        # a name that is a scope here and a parameter there: a different refusal, not this property's
+        return declare_all or all(id(m) in outs_of and outs_of[id(m)][0] == "ok" for m in matches[pth])
+    paths = [pth for pth in matches if usable(pth)]
+    matches = {pth: matches[pth] for pth in paths}
+    mt = master_for(paths)
+    if mt is None or not paths:
+        ctx.count("include_fetch_skipped_nothing_to_declare")
+        return
+    master = freephil.parse(input_string=mt)
+    with env_as(env):
+        got = call_j(lambda: master.fetch(source=processed))
+    ctx.count("include_fetch_" + ("ok" if got[0] == "ok" else str(got[2])))
+    expect_err = [outs_of[id(m)] for ms in matches.values() for m in ms if id(m) in outs_of and outs_of[id(m)][0] != "ok"]
+    if any(id(m) not in outs_of for ms in matches.values() for m in ms):
+        ctx.count("include_fetch_skipped_unmapped")
+        return
+    ctx.count("include_fetch_judged")
+    if got[0] != "ok":
+        if not expect_err:
+            ctx.fail(case, "fetch of the combined source raises %r although every matching definition resolves" % (got[1:],))
+        return
+    if expect_err:
+        ctx.fail(case, "fetch of the combined source succeeds although a matching definition does not resolve: %r" % (expect_err[0],))
+        return
+    for pth, ms in matches.items():
+        if not ms:
+            continue
+        r = got[1].get_without_substitution(pth)
+        want = outs_of[id(ms[-1])]
+        have = ["ok", [word_j(w)[:2] + [None] for w in r[0].words]] if len(r) == 1 and r[0].is_definition else ["?", len(r)]
+        if have != want:
+            ctx.fail(dict(case, definition=pth), "fetch gives %s = %r but the last definition of it in the combined source "
+                                                 "resolves to %r" % (pth, have, want))
+            return
+
+
+def include_stream(ctx):
+    import shutil
+    rng = ctx.rng
+    base = "/var/tmp/verif-c12-%d" % os.getpid()
+    pending = []
+    n = ctx.scale(400, 8000, 2000)
+    try:
+        for i in range(n):
+            if ctx.time_left() < 20:
+                ctx.notes.append("include stream stopped early on time budget")
+                break
+            include_round(ctx, rng, base, i, pending)
+    finally:
+        shutil.rmtree(base, ignore_errors=True)
+    if ctx.mode == "impl-only":
+        return
+    # ---- correspondence: the model resolves each file's own text; the implementation's answers are those of the same
+    #      definitions reached through the including file (and of the file parsed on its own)
+    from common import run_model, same_outcome
+    answers = run_model([q["request"] for q in pending])
+    for q, a in zip(pending, answers):
+        ctx.traces += 1
+        if a[0] != "ok" or len(a[1]) != q["n"]:
+            if a[0] == "parse-failed" and a[1][0] == "unsupported":
+                ctx.unsupported += 1
+            else:
+                ctx.disagree("resolve-included", q["case"], a, q["alone"])
+            continue
+        m = [a[1][j] for j in q["keep"]]
+        for names, outs in [(None, q["alone"])] + q["through"]:
+            if len(outs) != len(m):
+                ctx.disagree("resolve-included", q["case"], m, outs)
+                break
+            bad = [j for j in range(len(m)) if same_outcome(strip_lines(m[j]), outs[j]) is False]
+            if bad:
+                ctx.disagree("resolve-included", dict(q["case"], definition=names[bad[0]] if names else bad[0],
+                                                      through_includer=names is not None), m[bad[0]], outs[bad[0]])
+                break
+
 
 def replay(payload):
     c = payload["failure"]["case"]
     print(c)
+    if "files" in c:
+        import shutil
+        import tempfile
+        d = tempfile.mkdtemp(prefix="verif-c12-replay", dir="/var/tmp")
+        try:
+            for name, text in c["files"].items():
+                with open(os.path.join(d, name), "w") as fh:
+                    fh.write(text)
+            root = freephil.parse(file_name=os.path.join(d, c["main"]), process_includes=True)
+            print(root.as_str())
+            with env_as(c.get("env", {})):
+                for x in all_defs(root):
+                    print(x.full_path(), x.where_str, resolve_j(x, c.get("diff", False)))
+        finally:
+            shutil.rmtree(d, ignore_errors=True)
+        return False
     root = freephil.parse(input_string=c["text"])
     with env_as(c.get("env", {})):
         for d in all_defs(root):
